@@ -29,11 +29,11 @@ CLAIM = dict(
     "every shape, positive dimensions, arbitrary origin and every integer voxel inside or outside the image: coord_zero, "
     "coord_opposite, coord_step (orientation table regenerated from the running interpret_indexing and proved to be a permutation "
     "and the documented one), voxel_of_inside (every point with offset in [0,1) of a voxel converts back to it), center_roundtrip, "
-    "batch_roundtrip (lists of any length), typed_roundtrip / constructors_idempotent for the typed points, default_origin_box, "
+    "batch_roundtrip (lists of any length; the model's batch IS mapM of the single form by definition - that numpy's batch equals the map of the single form is observed), typed_roundtrip / constructors_idempotent for the typed points, default_origin_box, "
     "center_stable (float bridge: quotient error < 1/2 voxel cannot change a centre's index). Remaining public surface (round 2): coordinate_vector_linear, "
     "num_voxels_length (num_voxels(length(n)) = n; num_voxels(L) voxels cover L with < 1 voxel to spare), ceil_bridge, min_max_coordinate + voxel_in_domain (bounding box, "
     "reversed axes), matrix_indexing_false_involutive, check_equal_refl, check_equal_symm_of_symm, npclose_not_symmetric (witness: numpy's isclose is not symmetric), "
-    "inplace_ops_preserve_wellformedness (reset_origin(), origin / dimensions assignments keep the geometry well formed, so all theorems apply to the current fields), reset_origin_default, typed_subselection (__getitem__ of the typed arrays: result class, values, selection commutes with conversion). Tie: generated axis table + "
+    "inplace_ops_preserve_wellformedness (reset_origin(), origin / dimensions assignments keep the geometry well formed, so all theorems apply to the current fields), reset_origin_default, typed_subselection (__getitem__ of the typed arrays: result class and values; its third conjunct - selection commutes with conversion - is the naturality of row selection, not specific to the coordinate system). Tie: generated axis table + "
     "differential correspondence model vs implementation (coordinate, voxel, opposite_corner, voxel_size, default origin, typed points, coordinate_vector, length, num_voxels, "
     "min/max_coordinate, Image.domain, voxels/coordinates, make_* incl. matrix_indexing=False and batch assertions, check_equal_coordinatesystems incl. error classes), exact on dyadic geometries, index-exact with measured float error "
     "(recorded, must stay < 2^-20 voxel) on general geometries with origins up to 1e6 voxel sizes away.",
@@ -574,6 +574,12 @@ def oracle_geometry(ctx, d, g, payload, halo, stats):
     offsets = [("centre", np.full((len(vox), dim), 0.5))]
     k = 2 ** 10
     offsets.append(("interior", np.array([[rng.randint(1, k - 1) / k for _ in range(dim)] for _ in range(len(vox))])))
+    if not g["dyadic"]:
+        # ANY interior offset at least 2^-19 voxel away from a face: the measured coordinate error is required (TIE-BROKEN otherwise) to stay
+        # below 2^-20 voxel, and center_stable-style reasoning (floor_stable) then gives the same index - the float bridge for interior points
+        lo_ = 2.0 ** -19
+        offsets.append(("interior-random", np.array([[rng.uniform(lo_, 1 - lo_) for _ in range(dim)] for _ in range(len(vox))])))
+        offsets.append(("interior-near-face", np.array([[rng.choice([lo_, 1 - lo_]) for _ in range(dim)] for _ in range(len(vox))])))
     if g["dyadic"]:
         offsets.append(("lower-corner", np.zeros((len(vox), dim))))
         offsets.append(("below-upper-face", np.full((len(vox), dim), 1 - 2.0 ** -8)))
@@ -765,7 +771,7 @@ def surface_lines(ctx, d, g, img, cs, tok, origin, lines, impl):
     impl.append(show(call(d.make_coordinate, np.array(pts)), lambda r: show_rows(np.asarray(r))))
     # Image.slice by Cartesian name at a physical cut position vs by matrix index (model DarsiaModel.Slice, theorem C20.slice_name_eq_index):
     # the payload encodes the voxel index, so the selected (axis, index) is read off the returned array
-    if dim >= 2:
+    if dim >= 1:
         grids = np.meshgrid(*[np.arange(n_) for n_ in shape], indexing="ij")
         code = sum(gr * (16 ** k_) for k_, gr in enumerate(grids)).astype(float)
         kw = dict(space_dim=dim, dimensions=list(g["dims"]), scalar=True, origin=list(origin))
